@@ -93,6 +93,9 @@ def val_eq(model_v, eng_v):
     return model_v == eng_v
 
 
+LAZY_DROPPERS = {'filter', 'sub', 'keep', 'drop', 'calc', 'ifd', 'union', 'intersect', 'setdiff', 'symdiff'}
+
+
 def compare(case, model_ans, eng_out, result='DS_r'):
     """-> (verdict, detail); verdict in agree / skip:<why> / DISAGREE:<why>."""
     a = dec_answer(model_ans)
@@ -108,6 +111,14 @@ def compare(case, model_ans, eng_out, result='DS_r'):
         if a[1] == 'divzero':
             if eng_out[0] == 'vtl' and eng_out[1] == 'RunTimeError' and eng_out[2] in DIVZERO_CODES:
                 return 'agree', 'divzero'
+            ops = case.get('ops', ())
+            if (eng_out[0] == 'ok' and not case.get('flat') and case.get('depth', 0) >= 2
+                    and any(o in LAZY_DROPPERS or o.startswith('zip_') for o in ops)):
+                # one SQL statement per VTL statement: inside a nested expression DuckDB may drop the datapoint (or the
+                # measure) before it evaluates the division, so the error never arises.  Which of the two orders is
+                # taken is the optimiser's choice, not the operator's; division by zero itself is decided on the
+                # single-operator and multi-statement streams, where every operand is materialised first.
+                return 'skip:lazy-divzero-in-nested-expression', eng_out
             return 'DISAGREE:model-divzero', eng_out
         if a[1] == 'domain':
             return 'skip:model-domain', eng_out
